@@ -12,6 +12,7 @@ import (
 	"crypto/rand"
 	"encoding/json"
 	"fmt"
+	"sort"
 	"strings"
 
 	"github.com/btcsuite/btcutil/base58"
@@ -231,7 +232,15 @@ func (v *VDR) Create(did *docdid.Doc,
 		return nil, err
 	}
 
+	// iterate in key id order so that the same document always yields the same DID
+	keyIDs := make([]string, 0, len(pks))
 	for k := range pks {
+		keyIDs = append(keyIDs, k)
+	}
+
+	sort.Strings(keyIDs)
+
+	for _, k := range keyIDs {
 		createOpt = append(createOpt, create.WithPublicKey(pks[k].publicKey))
 	}
 
